@@ -13,23 +13,23 @@ def _op(n):
 
 TABLE = {
     "C05": dict(
-        quick=["hostile", "rgate"], thorough=["hostile", "rgate", "in_rm", "mps", "autodetect", "reuse_s"],
+        quick=["hostile", "rgate", "ids_edge", "reuse_s"], thorough=["hostile", "rgate", "ids_edge", "in_rm", "mps", "autodetect", "reuse_s", "reuse_c"],
         rule="a peer frame (valid, boundary-valued, malformed or garbage) is handed to recv",
         nontrivial=lambda n: _op(n) in ("recv", "garbage"), profile="hostile"),
     "C06": dict(
-        quick=["qos_c311", "qos_c50_rm", "qos_offline", "qos_server", "qos_order"],
+        quick=["qos_c311", "qos_c50_rm", "qos_offline", "qos_server", "qos_order", "mps_resume"],
         thorough=["qos_c311", "qos_c311_auto", "qos_c50", "qos_c50_rm", "qos_offline", "qos_server", "mps_resume", "qos_order"],
         rule="a QoS>0 PUBLISH/PUBREL is sent, acknowledged, erased or re-sent",
         nontrivial=lambda n: _kind(n) in ("publish", "pubrel", "puback", "pubrec", "pubcomp") or (_kind(n) == "connack" and n["call"]["pkt"]["sp"]),
         profile="qos"),
     "C07": dict(
-        quick=["in_qos2", "in_qos2_alias"], thorough=["in_qos2", "in_qos2_alias", "in_rm", "crash_in"],
+        quick=["in_qos2", "in_qos2_alias", "in_qos2_disc"], thorough=["in_qos2", "in_qos2_alias", "in_qos2_disc", "in_rm", "crash_in"],
         rule="a QoS 2 PUBLISH or a PUBREL is received",
         nontrivial=lambda n: _op(n) == "recv" and ((_kind(n) == "publish" and n["call"]["pkt"]["qos"] == 2) or _kind(n) == "pubrel"),
         profile="inbound"),
     "C08": dict(
-        quick=["qos_c311", "qos_offline", "gate"],
-        thorough=["qos_c311", "qos_c311_auto", "qos_c50", "qos_c50_rm", "qos_offline", "qos_server", "gate", "reuse_c"],
+        quick=["qos_c311", "qos_offline", "gate", "ids_edge"],
+        thorough=["qos_c311", "qos_c311_auto", "qos_c50", "qos_c50_rm", "qos_offline", "qos_server", "gate", "reuse_c", "ids_edge"],
         rule="an identifier is acquired, registered or released",
         nontrivial=lambda n: _op(n) in ("acquire", "register", "release") or any(e["ev"] == "released" for e in n["out"]),
         profile="ids"),
@@ -38,7 +38,7 @@ TABLE = {
         rule="a reused object runs next to a fresh shadow object after a close",
         nontrivial=lambda n: n.get("shadow") == "fresh", profile="reuse"),
     "C11": dict(
-        quick=["gate"], thorough=["gate", "qos_offline"],
+        quick=["gate", "in_qos2_disc"], thorough=["gate", "in_qos2_disc", "qos_offline"],
         rule="send is called (one cell of role x version x state x kind)",
         nontrivial=lambda n: _op(n) == "send", profile="gate"),
     "C12": dict(
@@ -68,7 +68,7 @@ TABLE = {
         rule="a frame is received (one cell of role x version x state x type nibble) or an undetermined server runs next to a fixed-version one",
         nontrivial=lambda n: _op(n) == "recv", profile="hostile"),
     "C19": dict(
-        quick=["timers_c", "timers_s", "hostile"], thorough=["timers_c", "timers_s", "hostile", "mps", "qos_c50", "reuse_s", "rgate"],
+        quick=["timers_c", "timers_s", "hostile", "refuse_stored"], thorough=["timers_c", "timers_s", "hostile", "refuse_stored", "mps", "qos_c50", "reuse_s", "rgate"],
         rule="the returned event list contains a close request or a final packet",
         nontrivial=lambda n: any(e["ev"] == "close" for e in n["out"]), profile="timers"),
 }
